@@ -65,6 +65,9 @@ def _gen_spec(rw, kind):
         ratio = rw.choice([20, 50, 200, 1000, round(rw.uniform(10, 2000), 1)])
         spec["fmin"] = fs / ratio / 2.0
         spec["init"] = rw.random() < 0.6
+        if rw.random() < 0.08:      # long-memory band: corner five to seven decades below the sampling rate (never settled: too long)
+            spec["fmin"] = fs / rw.choice([1e5, 1e6, 1e7])
+            spec["init"] = False
         if kind in ("alpha", "pink"):
             spec["fmax"] = fs / rw.choice([2.0, 2.5, 4.0, 10.0])
             if spec["fmax"] <= spec["fmin"] * 1.5:
@@ -102,8 +105,26 @@ def generate(seed, tier):
             gens.append(spec)
             per.append(copy.deepcopy(per[src]))
             continue
-        kind = rw.choice(KINDS + ["red", "alpha"])
-        spec = _gen_spec(rw, kind)
+        if gens and rw.random() < 0.12:
+            # a "cousin": another generator's parameters with exactly one of them changed (caches keyed too coarsely)
+            src = rw.randrange(len(gens))
+            spec = {k: v for k, v in gens[src].items() if k not in ("twin_of", "mode", "cousin_of")}
+            which = rw.choice([k for k in ("fs", "fmin", "fmax", "alpha", "seed", "psd") if k in spec])
+            if which == "fs":
+                spec["fs"] = spec["fs"] * rw.choice([2.0, 2.5, 10.0])
+            elif which == "seed":
+                spec["seed"] = spec["seed"] + 1
+            elif which == "alpha":
+                spec["alpha"] = round(min(2.0, max(0.01, spec["alpha"] * rw.choice([0.5, 0.9, 1.1]))), 4)
+            elif which == "fmax":
+                spec["fmax"] = spec["fmax"] * 0.8
+            else:
+                spec[which] = spec[which] * rw.choice([0.5, 0.9])
+            spec["cousin_of"] = src
+            kind = spec["kind"]
+        else:
+            kind = rw.choice(KINDS + ["red", "alpha"])
+            spec = _gen_spec(rw, kind)
         mode = rw.choice(["series", "series", "series", "samples", "mixed"])
         spec["mode"] = mode
         nops = rw.randrange(2, 14)
@@ -148,7 +169,10 @@ def generate(seed, tier):
         ops.append([kind, g, n])
     sc = {"gens": gens, "ops": ops, "initially_alive": [not c for c in created_late]}
     # same seed in a *fresh interpreter* (other hash salt): rarely in quick (a subprocess costs ~2 s), often in thorough
-    if rw.random() < (0.05 if tier == "thorough" else 0.006):
+    cousins = [g for g, sp in enumerate(gens) if "cousin_of" in sp]
+    if cousins and rw.random() < (0.6 if tier == "thorough" else 0.15):
+        sc["xproc"] = rw.choice(cousins)            # its stream must not depend on what was built before it in this process
+    elif rw.random() < (0.05 if tier == "thorough" else 0.006):
         sc["xproc"] = rw.randrange(len(gens))
     return sc
 
@@ -399,7 +423,7 @@ def _cross_process_check(sc, g, out):
     except Exception:
         return
     env = dict(os.environ, PYTHONHASHSEED=str(1000 + (sc.get("seed", 0) % 1000)))
-    p = subprocess.run([sys.executable, "-c", _XPROC, _json.dumps({k: v for k, v in spec.items() if k not in ("mode",)}), str(n)],
+    p = subprocess.run([sys.executable, "-c", _XPROC, _json.dumps({k: v for k, v in spec.items() if k not in ("mode", "cousin_of", "twin_of")}), str(n)],
                        capture_output=True, env=env, timeout=300)
     out.count("instance_in_fresh_interpreter")
     if p.returncode != 0:
@@ -424,8 +448,16 @@ def _cascade_kernel_check(sc, out):
     nsec = rk.randrange(1, 6)
     a = np.column_stack([nprng.uniform(0.5, 2.0, nsec), nprng.uniform(-1.5, 1.5, nsec)])
     b = np.column_stack([np.ones(nsec), -nprng.uniform(0.0, 0.999, nsec)])
+    if rk.random() < 0.5:
+        # shelving sections as a 1/f^alpha design produces them (bilinear first-order, corners down to 1e-7 of the rate):
+        # numerator and denominator coefficients nearly equal, DC gain f_hi/f_lo far from 1
+        flo = 10.0 ** nprng.uniform(-7.0, -1.0, nsec)
+        fhi = flo * 10.0 ** nprng.uniform(0.05, 1.0, nsec)
+        den = 1.0 + np.pi * flo
+        a = np.column_stack([(1.0 + np.pi * fhi) / den, -(1.0 - np.pi * fhi) / den])
+        b = np.column_stack([np.ones(nsec), -(1.0 - np.pi * flo) / den])
     zi0 = nprng.normal(size=(nsec, 1))
-    chunks = [rk.choice([0, 1, 2, 5, 33]) for _ in range(rk.randrange(1, 5))]
+    chunks = [rk.choice([0, 1, 2, 5, 33, 400]) for _ in range(rk.randrange(1, 5))]
     x = nprng.normal(size=sum(chunks))
     for variant in ("compiled", "py_func"):
         f = fn if variant == "compiled" else getattr(fn, "py_func", None)
